@@ -905,6 +905,13 @@ class Server:
             args = await response_queue.get()
             try:
                 await self.write_response(stream, *args)
+            except BaseException:
+                # nothing will be written any more (timeout, connection is
+                # lost): nobody should wait for the rest of the queue
+                while not response_queue.empty():
+                    response_queue.get_nowait()
+                    response_queue.task_done()
+                raise
             finally:
                 response_queue.task_done()
 
@@ -935,6 +942,9 @@ class Server:
             write_timeout=self.socket_timeout,
         )
         response_queue = asyncio.Queue()
+        response_writer = asyncio.create_task(
+            self.response_writer(stream, response_queue),
+        )
         connection = Connection(
             client_host=host,
             client_port=port,
@@ -949,7 +959,10 @@ class Server:
             path_io_factory=self.path_io_factory,
             path_timeout=self.path_timeout,
             extra_workers=set(),
-            response=lambda *args: response_queue.put_nowait(args),
+            # response queued when writer is gone would be waited for ever
+            response=lambda *args: (
+                response_writer.done() or response_queue.put_nowait(args)
+            ),
             acquired=False,
             restart_offset=0,
             _dispatcher=get_current_task(),
@@ -960,7 +973,7 @@ class Server:
         )
         pending = {
             asyncio.create_task(self.greeting(connection, "")),
-            asyncio.create_task(self.response_writer(stream, response_queue)),
+            response_writer,
             asyncio.create_task(self.parse_command(stream)),
         }
         self.connections[key] = connection
@@ -988,7 +1001,8 @@ class Server:
                     # this is "command" result
                     if isinstance(result, bool):
                         if not result:
-                            await response_queue.join()
+                            if not response_writer.done():
+                                await response_queue.join()
                             return
                     # this is parse_command result
                     elif isinstance(result, tuple):
